@@ -163,6 +163,7 @@ func runC20(c *fw.Ctx) {
 	if c.Shard == 0 {
 		c20OddNames(c)
 		c20Identity(c)
+		c20Concurrent(c)
 	}
 	for _, sg := range sigs {
 		sg := sg
